@@ -89,7 +89,7 @@ class Case:
 
     def __init__(self, cid, prog, args=None, interpret=True, debug_modes=(False, True), mut=None,
                  validate=True, tags=None, text=None, expect_reject=False, cross=None, note=None,
-                 wit_fixed=None):
+                 wit_fixed=None, check_markers=False):
         self.cid = cid
         self.prog = prog            # S.Program (specification side)
         self.args = args or {}      # name -> (ty, const expression AST)
@@ -102,7 +102,9 @@ class Case:
         self.expect_reject = expect_reject
         self.cross = cross          # optional second program text that must be equivalent (C12, C17)
         self.note = note
+        self.raw_args = {}          # text-only cases: arguments as {"NAME": {"type":..., "value":...}}
         self.wit_fixed = wit_fixed or {}  # name -> (list type, length): list witness of a fixed length
+        self.check_markers = check_markers  # C14: compare debug markers with the program's tracked calls
 
 
 def _arg_request(case):
@@ -204,8 +206,8 @@ def _check_case(case, res):
     text = case.text if case.text is not None else S.program_text(case.prog)
     res["text"] = text
     out = {}
-    spec_args = _spec_args(case)
-    areq = _arg_request(case)
+    spec_args = _spec_args(case) if case.prog is not None else {}
+    areq = case.raw_args if case.prog is None else _arg_request(case)
     rng = random.Random(int(hashlib.sha256((case.cid + str(case.tags.get("seed", 0))).encode()).hexdigest()[:8], 16))
     fails_by_mode = {}
     machines = {}
@@ -239,8 +241,55 @@ def _check_case(case, res):
             res["tracked"] = len(d.get("tracked", []))
             res["marker_kinds"] = sorted(set((n["marker"]["kind"].split("(")[0], n["marker"]["text"]) for n in d["nodes"] if "marker" in n))
             res["taps_nonconst"] = sum(1 for (_, _, tag, _) in m.taps if not (tag.op == "c" and tag.val == 0))
-    # specification (shares the witness variables of the first machine)
+            nows = lambda s: "".join(s.split())
+            dag_markers = set((n["marker"]["kind"].split("(")[0], nows(n["marker"]["text"])) for n in d["nodes"] if "marker" in n)
+            res["dag_markers"] = sorted(dag_markers)
+            res["unmarked_assertl"] = sum(1 for n in d["nodes"] if n["k"] == "assertl" and "marker" not in n and not n.get("failcmr"))
+            res["marker_cmrs_distinct"] = len(set(n["cmr"] for n in d["nodes"] if "marker" in n))
+            res["marker_nodes"] = sum(1 for n in d["nodes"] if "marker" in n)
+            res["tracked_table"] = sorted(set((t["kind"].split("(")[0], nows(t["text"])) for t in d.get("tracked", [])))
+            res["tracked_cmrs_distinct"] = len(set(t["cmr"] for t in d.get("tracked", []))) == len(d.get("tracked", []))
     m0, d0 = machines[case.debug_modes[0]]
+    # debug-symbol bookkeeping (structural facts about the concrete artefact)
+    if True in machines and case.check_markers:
+        if res.get("unmarked_assertl"):
+            return {"status": "violation", "kind": "markers", "detail": "%d assertl node(s) whose hidden CMR is neither a fail node nor a debug symbol" % res["unmarked_assertl"]}
+        if res.get("taps_nonconst"):
+            return {"status": "violation", "kind": "markers", "detail": "a debug marker is entered with a tag that is not the constant `false`"}
+        if not res.get("tracked_cmrs_distinct", True):
+            return {"status": "violation", "kind": "markers", "detail": "two tracked call sites share a marker CMR"}
+        if case.prog is not None:
+            expected = sorted(S.tracked_calls(case.prog))
+            if [list(x) for x in expected] != [list(x) for x in res["dag_markers"]]:
+                missing = [x for x in expected if list(x) not in [list(y) for y in res["dag_markers"]]]
+                extra = [x for x in res["dag_markers"] if tuple(x) not in set(expected)]
+                return {"status": "violation", "kind": "markers",
+                        "detail": "markers in the debug build do not resolve to exactly the tracked calls of the program: missing %s, unexpected %s" % (missing[:3], extra[:3])}
+        else:
+            src_nows = "".join(text.split())
+            for kind, t in res["dag_markers"]:
+                probe = t if kind != "Debug" else "dbg!(" + t + ")"
+                if probe not in src_nows:
+                    return {"status": "violation", "kind": "markers", "detail": "marker text %r (%s) is not a call of the source file" % (t, kind)}
+    if case.prog is None:
+        # text-only case (shipped examples): behaviour neutrality of the debug build only
+        m1, d1 = machines[True]
+        for name, t in m1.wit.items():
+            t0 = m0.wit.get(name)
+            if t0 is not None and t0 is not t:
+                raise Broken("witness %s has different canonical terms in the two builds" % name)
+        res["terms"] = T.n_terms()
+        goal = T.xor(fails_by_mode[False], fails_by_mode[True])
+        if goal.op == "c":
+            res["closed_by_rewriting"] = res.get("closed_by_rewriting", 0) + 1
+        r, model = solver.check(goal, abstract=True)
+        res["queries"] += 1
+        if r == "unknown":
+            return {"status": "inconclusive", "detail": "solver: %s" % str(model)[:300]}
+        if r == "sat":
+            return {"status": "unconfirmed", "detail": "debug and plain build differ for some witness / jet meaning", "kind": "neutrality"}
+        return {"status": "held"}
+    # specification (shares the witness variables of the first machine)
     problems = []
     spec = S.Spec(_witness_provider(m0, d0, problems), args=spec_args, interpret=case.interpret, mutate=case.mut)
     try:
@@ -345,6 +394,9 @@ def _check_case(case, res):
                         "detail": "source semantics and symbolic execution of the emitted DAG: %s; real pipeline: %s%s" % (
                             rec["spec_verdict"], "fail" if real_fail else "success",
                             "" if real.get("ok") else " (stopped at %s: %s)" % (real.get("stage"), str(real.get("error"))[:120]))}
+            if not real.get("ok"):
+                res.setdefault("pipeline_stops", []).append(real.get("stage"))
+                continue
             if not (real["cmr_commit"] == real["cmr_redeem"] == real["cmr_decoded"]):
                 res.setdefault("cmr_mismatch", []).append(case.cid)
             res["validated"] += 1
